@@ -451,7 +451,7 @@ func gen(c *hxlib.Ctx) {
 		}
 	}
 	// f/h. lengths; g. every V
-	for i := 0; i < c.N(3); i++ {
+	for i := 0; i < c.N(2); i++ {
 		k := keys[r.Intn(len(keys))]
 		m := baseTx(r, k.Addr)
 		sig := sign(k, idOf(m))
@@ -485,7 +485,7 @@ func gen(c *hxlib.Ctx) {
 		c.Note("accepted variant of a valid signature (same r,s, same key): %s x%d", k, accepted[k])
 	}
 	// j. signature formats
-	for i := 0; i < c.N(200); i++ {
+	for i := 0; i < c.N(150); i++ {
 		n := []int{0, 1, 63, 64, 64, 65, 65, 65, 65, 66, 130}[r.Intn(11)]
 		b := make([]byte, n)
 		r.Read(b)
